@@ -10,7 +10,7 @@ def units(tier):
         us.append(Unit(P.Seek, {'whence': w}))
     for m in ('read', 'readall', 'readinto', 'seek', 'tell', 'length'):
         us.append(Unit(P.Closed, {'method': m}))
-    us += [Unit(P.CopyDataYield), Unit(P.InodeOpen, {'location': 1}), Unit(P.InodeOpen, {'location': 2})]
+    us += [Unit(P.CopyDataYield), Unit(P.InodeOpen, {'location': 1}), Unit(P.InodeOpen, {'location': 2}), Unit(P.InodeOpen, {'location': 2, 'managed': True})]
     return us
 
 
